@@ -53,6 +53,26 @@ def main():
             ok = all(importlib.import_module("engines." + n).replay(rp) for n in (en if isinstance(en, list) else [en]))
             print("REPLAY %s: %s" % (a.path, "still fails" if not ok else "passes"))
             sys.exit(0 if ok else 1)
+        if a.prop == "selftest":
+            # binding demonstration: every engine that defines selftest() corrupts one recorded field / removes one
+            # hook event / mutates one specification constant and must see the rejection (written to SELFTEST.json)
+            rep, good = {}, True
+            for name in sorted({n for v in ENGINES.values() for n in (v if isinstance(v, list) else [v])}):
+                eng = importlib.import_module("engines." + name)
+                if not hasattr(eng, "selftest"):
+                    continue
+                r = eng.selftest()
+                if isinstance(r, tuple):
+                    r = {"ok": bool(r[0]), "report": r[1]}
+                elif not isinstance(r, dict):
+                    r = {"ok": bool(r)}
+                if "ok" not in r:
+                    r["ok"] = all(v for v in r.values() if isinstance(v, bool))
+                rep[name] = r
+                good = good and bool(r.get("ok"))
+                print("selftest %-12s %s" % (name, "ok" if r.get("ok") else "FAILED"))
+            json.dump(rep, open(os.path.join(os.path.dirname(os.path.abspath(__file__)), "SELFTEST.json"), "w"), indent=1, default=str)
+            sys.exit(0 if good else 2)
         if a.prop not in ENGINES:
             print("unknown or not-applicable property", a.prop)
             sys.exit(2)
